@@ -64,6 +64,12 @@ def main():
         ms = None
     if ms is not None:
         ms.run()
+    try:
+        from vf import txmc_selftest as ts   # statement-interleaving engine (row locks, read views, deadlocks) on a toy schema
+    except ImportError:
+        ts = None
+    if ts is not None:
+        ts.run()
     print('selftest ok')
 
 
